@@ -227,7 +227,8 @@ func YieldPlan(tier string, plan []Batch) []Batch {
 	best := map[string]int{}
 	var modes []string
 	for i, b := range plan {
-		if b.Kind != "" || !b.Race || noYieldModes[b.Args["mode"]] {
+		if b.Kind != "" || !b.Race || noYieldModes[b.Args["mode"]] || b.Args["mode"] == "exh" {
+			// (the exhaustive enumerations are the longest batches of their checks: perturbed only in the thorough tier)
 			continue
 		}
 		m := b.Args["mode"] + "/" + b.Args["tracking"]
